@@ -1,8 +1,17 @@
 (* C18 - The JSON document is the configuration, no more and no less.
    Statements only; proofs live in Proofs/TreeProofs.v, Proofs/TreeBuildProofs.v, Proofs/TreeFlattenProofs.v,
-   Proofs/TreeExamples.v. *)
+   Proofs/TreeExamples.v, and (sorted => contiguous) Proofs/TreeContiguous.v, Proofs/TreeContiguousSets.v.
+   Contiguity, formerly only evaluated (the paths_eqb conjunct of wf_set), is now PROVED for every set:
+   C18_sorted_contiguous / C18_sorted_live_paths - a set of paths sorted bytewise whose texts are "/" e1 "/" e2 ... (non-empty
+   elements the tokenizer returns whole: normal_textb) and whose element lists are prefix-free (no duplicates, no leaf
+   above a leaf) is the depth-first enumeration of a trie with pairwise distinct child elements at every node, so the
+   paths sharing leading elements - the paths of one list entry, whose element text is one text when the keys are written
+   in canonical order - are contiguous, and trie_of rebuilds exactly that trie (C18_trie_of_dfs).  Both hypotheses are
+   necessary: C18_leading_slash_needed, C18_prefix_free_needed.  What wf_set still decides by evaluation is the rest of
+   wf_trie (key names per list, explicit key leaves, parse of keyed elements, different key sets for equal list names). *)
 From Coq Require Import List NArith Bool Permutation Sorted.
-From OC Require Import Base.Bytes Model.Tree Model.TreeSpec Proofs.TreeProofs Proofs.TreeBuildProofs Proofs.TreeFlattenProofs Proofs.TreeExamples.
+From OC Require Import Base.Bytes Model.Tree Model.TreeSpec Proofs.TreeProofs Proofs.TreeBuildProofs Proofs.TreeFlattenProofs Proofs.TreeExamples
+     Proofs.TreeContiguous Proofs.TreeContiguousSets.
 Import ListNotations.
 
 (* Pruning keeps exactly (as a multiset) the path/values that have no tombstone strictly above them at a path
@@ -46,8 +55,8 @@ Print Assumptions C18_build_render.
    the live paths go through (an explicit key leaf replaces the injected one).  wf_set: the live paths, in
    the order BuildTree processes them, are the depth-first enumeration of a well-formed trie - entries
    contiguous, canonical key order, one key-name list per list, no leaf above a leaf, explicit key leaves
-   agreeing with the path.  That every sorted canonical set has contiguous entries is not proved here; the
-   driver evaluates wf_set (extracted) on every generated well-formed set instead. *)
+   agreeing with the path.  That every sorted, normal, prefix-free set has contiguous entries is proved below
+   (C18_sorted_live_paths); the rest of wf_set is still evaluated (extracted) by the driver on every generated set. *)
 Theorem C18_flatten_build : forall rfc pvs,
   wf_set rfc pvs = true ->
   exists t, build_tree rfc pvs = Ok t /\
@@ -103,3 +112,63 @@ Theorem C18_nonbasic_key_leaf_refuted :
             List.length l = 2%nat /\ wf_set true nonbasic_key_witness = false.
 Proof. exact nonbasic_key_split. Qed.
 Print Assumptions C18_nonbasic_key_leaf_refuted.
+
+(* ---- sorted bytewise => contiguous.
+   text p = "/" e1 "/" e2 ... of the elements of p; text_le = bytewise order of the texts (what PrunePathValues sorts by);
+   elem_ok e: e is not empty and nextTokenIndex does not split it (brackets closed, no pending escape at its end);
+   pfree L: no path's elements are a prefix of another's;  ctg L: whatever lies between two paths that share leading
+   elements shares them too;  good t: every node has at least one child and pairwise distinct child elements *)
+Theorem C18_sorted_contiguous : forall L,
+  (forall p, In p L -> Forall elem_ok (fst p)) -> pfree L -> StronglySorted text_le L -> ctg L.
+Proof. exact sorted_ctg. Qed.
+Print Assumptions C18_sorted_contiguous.
+
+Theorem C18_sorted_is_dfs : forall L,
+  (forall p, In p L -> fst p <> [] /\ Forall elem_ok (fst p)) -> pfree L -> StronglySorted text_le L ->
+  exists cs, NoDup (map fst cs) /\ Forall (fun et => good (snd et)) cs /\ dfs (TNode cs) = L /\ trie_of L = TNode cs.
+Proof. exact sorted_is_dfs. Qed.
+Print Assumptions C18_sorted_is_dfs.
+
+(* folding a depth-first enumeration back finds the trie *)
+Theorem C18_trie_of_dfs : forall t, good t -> trie_of (dfs t) = t.
+Proof. exact trie_of_dfs. Qed.
+Print Assumptions C18_trie_of_dfs.
+
+(* SplitPath returns the elements of a normal text *)
+Theorem C18_split_ptext : forall es, es <> [] -> Forall elem_ok es -> split_path (ptext es) = es.
+Proof. exact split_ptext. Qed.
+Print Assumptions C18_split_ptext.
+
+(* on path/value sets: the contiguity conjunct of wf_set holds for every set of normal, prefix-free paths *)
+Theorem C18_sorted_live_paths : forall pvs,
+  (forall x, In x pvs -> normal_textb (pv_path x) = true) -> pfree (live_paths pvs) ->
+  exists cs, NoDup (map fst cs) /\ Forall (fun et => good (snd et)) cs /\
+             dfs (TNode cs) = live_paths pvs /\ trie_of (live_paths pvs) = TNode cs /\
+             paths_eqb (dfs (trie_of (live_paths pvs))) (live_paths pvs) = true.
+Proof. exact sorted_live_paths. Qed.
+Print Assumptions C18_sorted_live_paths.
+
+Theorem C18_sorted_inhabited :
+  (forall x, In x wf_example -> normal_textb (pv_path x) = true) /\ pfree (live_paths wf_example).
+Proof. exact sorted_example. Qed.
+Print Assumptions C18_sorted_inhabited.
+
+(* the hypotheses are needed: without the leading '/' ("/a/b" < "/z/y" < "a/c") element a is split although the set is
+   prefix-free; with a leaf above a leaf ("/a/b" < "/a/b-c" < "/a/b/d", '-' < '/') element b is split although all
+   texts are normal *)
+Theorem C18_leading_slash_needed :
+  pfree (live_paths cx_slash) /\
+  map fst (live_paths cx_slash) = [[B "a"; B "b"]; [B "z"; B "y"]; [B "a"; B "c"]] /\
+  child_elems (trie_of (live_paths cx_slash)) = [B "a"; B "z"; B "a"] /\
+  normal_textb (B "a/c") = false /\ wf_set true cx_slash = false.
+Proof. exact leading_slash_needed. Qed.
+Print Assumptions C18_leading_slash_needed.
+
+Theorem C18_prefix_free_needed :
+  (forall x, In x cx_leaf -> normal_textb (pv_path x) = true) /\
+  map fst (live_paths cx_leaf) = [[B "a"; B "b"]; [B "a"; B "b-c"]; [B "a"; B "b"; B "d"]] /\
+  pfreeb (live_paths cx_leaf) = false /\
+  match trie_of (live_paths cx_leaf) with TNode [(_, t)] => child_elems t | _ => [] end = [B "b"; B "b-c"; B "b"] /\
+  wf_set true cx_leaf = false.
+Proof. exact prefix_free_needed. Qed.
+Print Assumptions C18_prefix_free_needed.
